@@ -171,7 +171,10 @@ def c13_r3(ctx):
                 addk += 1
                 k = render(strip(s2.operand(t['args'][1])))
                 ctx.inst('WindowOperator|add_key|%d' % addk, {'key': k[:100]})
-                if 'key' not in k:
+                import re as _re
+                # the key of the manager that produced the result: the key parameter of the `retain` closure over the map
+                # (control path) or the key taken out of the element (data path)
+                if not (_re.match(r'^\^?arg\d+$', k.replace('Clone::clone(&', '').rstrip(')').lstrip('&*')) or 'take_key' in k):
                     ctx.viol('%s|result-key' % nx.path, t['at'], 'a window result is tagged with `%s` instead of its window\'s key' % k[:80], None)
     if addk < 2:
         ctx.viol('%s|result-key-missing' % nx.path, nx.at, 'window results are not re-keyed (add_key) on both the data and the control path', None)
@@ -205,7 +208,7 @@ def c13_r4(ctx):
         dnf = q.cond_of_block(facts, pr, bi)
         for c in dnf:
             ops = [a[2] for a in c if a[0] == 'is' and 'Fn::call' in a[1]]
-            el = [a[2] for a in c if a[0] == 'is' and a[1] in ('el', 'arg2') or (a[0] == 'is' and a[1].startswith('el'))]
+            el = [a[2] for a in c if a[0] == 'is' and a[1] == 'arg2']
             table.setdefault('return', []).append((tuple(ops), tuple(el), tuple(sorted(show_dnf([frozenset(x for x in c if x[0] == 'cmp')])))))
     ctx.inst('Transaction::process|returns', {'return conditions': [str(x) for x in table.get('return', [])][:6]})
     ops_returning = {o for ops, el, cm in table.get('return', []) for o in ops}
